@@ -1,0 +1,154 @@
+//! Verification driver, compiled only with `--cfg metrics_verif`.
+//!
+//! `PayloadWriter`, `State` and `FlushState` are `pub(crate)`; this module is a thin public wrapper so that an external
+//! harness can drive them exactly the way the forwarder does. Nothing here changes behaviour: every method forwards to
+//! the crate-internal one.
+//!
+//! * [`Writer`] — one long-lived `PayloadWriter`: the four `write_*` calls returning their `WriteResult` counts, and
+//!   [`Writer::drain`], which empties the writer through `payloads()` / `next_payload()` (and the drop of `Payloads`)
+//!   like one iteration of `Forwarder::run`.
+//! * [`StateDriver`] — `State::new`, a recorder over that state, and `State::flush` into a [`Writer`].
+#![allow(missing_docs, clippy::missing_panics_doc, clippy::must_use_candidate, clippy::too_many_arguments)]
+
+use std::sync::Arc;
+
+use metrics::{Key, Label};
+
+use crate::{
+    builder::AggregationMode,
+    recorder::DogStatsDRecorder,
+    state::{FlushState, State, StateConfiguration},
+    telemetry::TelemetryUpdate,
+    writer::{PayloadWriter, WriteResult},
+};
+
+/// The two counters of a `WriteResult`.
+#[derive(Clone, Copy, Debug, PartialEq, Eq)]
+pub struct WriteCounts {
+    pub payloads_written: u64,
+    pub points_dropped: u64,
+}
+
+impl From<WriteResult> for WriteCounts {
+    fn from(r: WriteResult) -> Self {
+        WriteCounts { payloads_written: r.payloads_written(), points_dropped: r.points_dropped() }
+    }
+}
+
+/// A long-lived `PayloadWriter`.
+pub struct Writer(PayloadWriter);
+
+impl Writer {
+    /// `PayloadWriter::new` (panics if `max_payload_len` does not fit in a `u32`).
+    pub fn new(max_payload_len: usize, with_length_prefix: bool) -> Self {
+        Writer(PayloadWriter::new(max_payload_len, with_length_prefix))
+    }
+
+    pub fn write_counter(
+        &mut self,
+        key: &Key,
+        value: u64,
+        timestamp: Option<u64>,
+        prefix: Option<&str>,
+        global_labels: &[Label],
+    ) -> WriteCounts {
+        self.0.write_counter(key, value, timestamp, prefix, global_labels).into()
+    }
+
+    pub fn write_gauge(
+        &mut self,
+        key: &Key,
+        value: f64,
+        timestamp: Option<u64>,
+        prefix: Option<&str>,
+        global_labels: &[Label],
+    ) -> WriteCounts {
+        self.0.write_gauge(key, value, timestamp, prefix, global_labels).into()
+    }
+
+    pub fn write_histogram(
+        &mut self,
+        key: &Key,
+        values: &[f64],
+        sample_rate: Option<f64>,
+        prefix: Option<&str>,
+        global_labels: &[Label],
+    ) -> WriteCounts {
+        self.0.write_histogram(key, values.iter().copied(), sample_rate, prefix, global_labels).into()
+    }
+
+    pub fn write_distribution(
+        &mut self,
+        key: &Key,
+        values: &[f64],
+        sample_rate: Option<f64>,
+        prefix: Option<&str>,
+        global_labels: &[Label],
+    ) -> WriteCounts {
+        self.0.write_distribution(key, values.iter().copied(), sample_rate, prefix, global_labels).into()
+    }
+
+    /// One drain as done by the forwarder after each flush: every payload `payloads()` yields, in order, exactly as it
+    /// would be handed to the socket; the `Payloads` iterator is then dropped and the writer stays alive.
+    pub fn drain(&mut self) -> Vec<Vec<u8>> {
+        let mut payloads = self.0.payloads();
+        let mut out = Vec::with_capacity(payloads.len());
+        while let Some(payload) = payloads.next_payload() {
+            out.push(payload.to_vec());
+        }
+        out
+    }
+}
+
+/// The point/context counters a flush reports (the public part of a `TelemetryUpdate`).
+#[derive(Clone, Copy, Debug, Default, PartialEq, Eq)]
+pub struct FlushCounts {
+    pub counter_contexts: u64,
+    pub gauge_contexts: u64,
+    pub histogram_contexts: u64,
+    pub counter_points: u64,
+    pub gauge_points: u64,
+    pub histogram_points: u64,
+    pub packets_dropped_serializer: u64,
+}
+
+/// `State` + the `FlushState` the forwarder keeps next to it.
+pub struct StateDriver {
+    state: Arc<State>,
+    flush_state: FlushState,
+}
+
+impl StateDriver {
+    /// `State::new` with telemetry off. `aggressive` selects `AggregationMode::Aggressive`.
+    pub fn new(
+        aggressive: bool,
+        histogram_sampling: bool,
+        histogram_reservoir_size: usize,
+        histograms_as_distributions: bool,
+        global_labels: Vec<Label>,
+        global_prefix: Option<String>,
+    ) -> Self {
+        let config = StateConfiguration {
+            agg_mode: if aggressive { AggregationMode::Aggressive } else { AggregationMode::Conservative },
+            telemetry: false,
+            histogram_sampling,
+            histogram_reservoir_size,
+            histograms_as_distributions,
+            global_labels,
+            global_prefix,
+        };
+        StateDriver { state: Arc::new(State::new(config)), flush_state: FlushState::default() }
+    }
+
+    /// A recorder over this state (what `DogStatsDBuilder::build` returns); handles come from its `register_*`.
+    pub fn recorder(&self) -> DogStatsDRecorder {
+        DogStatsDRecorder::new(Arc::clone(&self.state))
+    }
+
+    /// `State::flush` into `writer`, with the flush state carried over from earlier flushes.
+    pub fn flush(&mut self, writer: &mut Writer) -> FlushCounts {
+        let mut update = TelemetryUpdate::default();
+        self.state.flush(&mut self.flush_state, &mut writer.0, &mut update);
+        update.verif_counts()
+    }
+}
